@@ -40,7 +40,7 @@ LIMIT = rc.CODE_SIZE
 def plan(tier, seed):
     cases = []
     light = ['empty', 'onechar', 'short', 'typical', 'typical', 'repetitive_small', 'update60_start', 'update60_middle',
-             'update60_end', 'crlf', 'glyphs', 'version0', 'stream_entry', 'convert']
+             'update60_end', 'crlf', 'glyphs', 'version0', 'stream_entry', 'convert', 'cli_entry']
     nl = 15 if tier == 'quick' else 120
     for r in range(nl):
         for c in light:
@@ -68,7 +68,7 @@ def make_code(rng, c):
         return rng.choice((b'x', b';', b'\n', b'a', b'1'))
     if cls == 'short':
         return rng.choice((b'x=1', b'x=1\n', b'print("hi")\n', b'a=b\nc=d', b'-- t\n'))
-    if cls in ('typical', 'stream_entry', 'convert', 'version0'):
+    if cls in ('typical', 'stream_entry', 'convert', 'version0', 'cli_entry'):
         return carts.simple_lua(rng, rng.choice((40, 300, 2000, 6000)))
     if cls == 'glyphs':
         return carts.simple_lua(rng, rng.choice((100, 1500)), glyphs=True)
@@ -161,7 +161,8 @@ def run_case(ctx, rng, c, workdir):
     version = 0 if cls == 'version0' else rng.choice((1, 5, 8, 33, 255, rng.randint(1, 255)))
     code = c.get('code') if c.get('code') is not None else make_code(rng, c)
     dest_exists = c.get('dest_exists', rng.random() < 0.5)
-    entry = c.get('entry', 'stream' if cls == 'stream_entry' else 'convert' if cls == 'convert' else 'file')
+    entry = c.get('entry', 'stream' if cls == 'stream_entry' else 'convert' if cls == 'convert' else
+                  'cli' if cls == 'cli_entry' else 'file')
     case = {'cls': cls, 'code': code, 'version': version, 'regions': {k: v for k, v in regions.items()},
             'dest_exists': dest_exists, 'entry': entry}
     if 'regions' in c:
@@ -203,6 +204,25 @@ def run_case(ctx, rng, c, workdir):
             buf = io.BytesIO()
             P8PNGFormatter.to_file(g, buf, label_fname=dest if dest_exists else None)
             data = buf.getvalue()
+        elif entry == 'cli':
+            # `p8tool writep8|luafmt in.p8.png` writes in_fmt.p8.png; an earlier in_fmt.p8.png is its label source
+            from pico8 import tool
+            src = os.path.join(workdir, 'in.p8.png')
+            with open(src, 'wb') as fh:
+                fh.write(rc.write_p8png(regions, rc.raw_code_area(code), version))
+            out = os.path.join(workdir, 'in_fmt.p8.png')
+            if os.path.exists(out):
+                os.remove(out)
+            if dest_exists:
+                shutil.move(dest, out)
+            listing_before = sorted(os.listdir(workdir))
+            dest = out
+            rcode = tool.main(['-q', 'writep8', src])
+            if rcode:
+                raise RuntimeError('p8tool returned %r' % rcode)
+            with open(out, 'rb') as fh:
+                data = fh.read()
+            os.remove(src)
         elif entry == 'convert':
             # .p8 -> .p8.png through the file API
             src = os.path.join(workdir, 'src%d.p8' % ctx.evaluations)
@@ -280,6 +300,8 @@ def run_case(ctx, rng, c, workdir):
     want_code = code if entry != 'convert' else (code if code.endswith(b'\n') or True else code)
     if entry == 'convert' and not code.endswith(b'\n'):
         want_code = code + b'\n'   # the .p8 format supplies the final newline
+    if entry == 'cli':
+        want_code = norm_code(code) + b'\n'   # the cart went through the raw .p8.png reader first
     if text != want_code:
         d = next((i for i in range(min(len(text), len(want_code))) if text[i] != want_code[i]), min(len(text), len(want_code)))
         ctx.violation('reference decode of the stored code differs at %d (stored %d bytes, cart %d bytes; %s)' % (
@@ -372,7 +394,7 @@ def gates(m, tier):
     missed = []
     for k in ('class:empty', 'class:onechar', 'class:short', 'class:typical', 'class:repetitive_small', 'class:update60_start',
               'class:update60_middle', 'class:update60_end', 'class:incompressible', 'class:near_compressed', 'class:oversize',
-              'class:repetitive_big', 'class:convert', 'class:stream_entry', 'dest_exists', 'dest_absent'):
+              'class:repetitive_big', 'class:convert', 'class:stream_entry', 'class:cli_entry', 'dest_exists', 'dest_absent'):
         if f.get(k, 0) < 1:
             missed.append('%s never generated' % k)
     if f.get('stored_raw', 0) < 10 or f.get('stored_compressed', 0) < 10:
